@@ -244,6 +244,17 @@ def mat_tokens(a):
 
 class C16(Family):
     prop = "C16"
+    # source-text tie (notes/NOTES-py2lean-norm.md): Generated/Norm*.lean are rewritten from
+    # control/sysnorm.py on every run; these modules prove model = generated
+    extra_modules = ["CtrlVerif.Props.C16GenH2", "CtrlVerif.Props.C16GenHam", "CtrlVerif.Props.C16GenBil",
+                     "CtrlVerif.Props.C16GenLoops", "CtrlVerif.Props.C16GenLinf", "CtrlVerif.Props.C16Gen"]
+
+    def pre_build(self):
+        import os
+        from core import py2lean_norm, leanproj
+        problems, self.gen_info = py2lean_norm.regenerate(os.environ.get("VERIF_REPO") or "/repo", leanproj.LEAN)
+        return problems
+
     externals = [
         "scipy.linalg.solve_continuous_lyapunov / solve_discrete_lyapunov through ct.lyap / ct.dlyap "
         "(parameter of the model; the driver uses an exact candidate that it checks against the "
